@@ -20,7 +20,7 @@ from ..term import Resolver, pmatch
 
 FLOORS = {"trip-count": 4, "length-pair": 4, "run_for.progress": 2, "pool-order": 1,
           "entry-resolves": 10, "equal-steps": 2, "ensemble-length": 1,
-          "zero-trip": 6, "randomness-owned": 5}
+          "zero-trip": 6, "randomness-owned": 5, "state-picklable": 12}
 
 
 def run(prog, tier):
@@ -172,6 +172,11 @@ def run(prog, tier):
 
     # ---------------------------------------------------------------- randomness is part of the chain's own state
     obs.extend(_owned_randomness(prog))
+    # whatever travels with a chain between processes must survive pickling
+    from .common import picklable_state_obligations
+    shipped = [ci_ for ci_ in prog.classes.values() if ci_.module.relpath.startswith("inference/mcmc/")
+               and ci_.name not in ("ParallelTempering", "ChainPool")]
+    obs.extend(picklable_state_obligations(prog, "state-picklable", shipped))
 
     meta = {
         "explanation": "Trip-count algebra: executions of the step callee are summed symbolically over range() loops and "
